@@ -226,7 +226,7 @@ def real_case(spec, log):
             host = server.addr
         n = spec['inputs']
         poison = set(spec.get('poison', ()))
-        p = Pool(vtargets.pool_target, retry=spec.get('retry', True), close_timeout=2)
+        p = Pool(vtargets.pool_target_big if spec.get('big') else vtargets.pool_target, retry=spec.get('retry', True), close_timeout=2)
         with p:
             for k in kinds:
                 kw = {'host': host} if k == 'REMOTE' else {}
@@ -253,11 +253,15 @@ def real_case(spec, log):
 
             def do_run():
                 try:
-                    box['ret'] = p.run(iter(range(n)), worker_extra_pending_inputs=spec.get('extra', 0))
+                    def slow_reader(worker, event, *a):
+                        # a parent that is slow to read: the children spend most of their time blocked in the middle of a send
+                        if event == 'finished':
+                            time.sleep(0.03)
+                    box['ret'] = [tuple(x[:2]) for x in p.run(iter(range(n)), worker_extra_pending_inputs=spec.get('extra', 0), worker_callback=(slow_reader if spec.get('big') else None))]
                     box['outcome'] = 'returned'
                 except PoolError as e:
                     box['outcome'] = 'PoolError'
-                    box['partial'] = e.partial_results
+                    box['partial'] = [tuple(x[:2]) for x in e.partial_results] if e.partial_results is not None else None
                     box['alive'] = [w.is_alive() and w.id not in p._closed for w in p.workers]
                 except BaseException as e:  # noqa
                     import traceback
@@ -289,7 +293,13 @@ def real_runs(chk, tier, r):
         inputs = r.randint(3, 40)
         specs.append(dict(seed=r.randrange(1 << 30), kinds=kinds, inputs=inputs, extra=r.randint(0, 2),
                           poison=sorted(set(r.randrange(inputs) for _ in range(r.choice([0, 0, 0, 1])))),
-                          kill_at=sorted(r.uniform(0.0, 0.15) for _ in range(r.choice([0, 1, 1, 2])))))
+                          kill_at=sorted(r.uniform(0.0, 0.15) for _ in range(r.choice([0, 1, 1, 2]))), big=(i % 3 == 2)))
+    for sp in specs:
+        if sp.get('big'):
+            # results that do not fit a pipe buffer: a kill can land while one is in flight
+            sp['inputs'] = max(sp['inputs'], 25)
+            sp['kill_at'] = sorted(r.uniform(0.05, 0.6) for _ in range(r.choice([1, 2, 3])))
+            sp['kinds'] = r.choice([['PROCESS', 'PROCESS'], ['PROCESS', 'PROCESS', 'PROCESS'], ['REMOTE', 'PROCESS']])
     wd = workdir('c07real')
 
     def one(ix):
